@@ -319,6 +319,33 @@ def run(ck, prog, ctx):
     if atb is not None:
         from engines import check_required_steps as _crs7
         _crs7(ck, "COVER", prog, atb, [("store the decoded term", lambda t_: (t_.callee.res or "").endswith("::add_term") or (t_.callee.res or "").endswith("Arena::insert") or ((t_.callee.res or "").startswith("<ontology::termarena::Arena as") and t_.callee.method == "extend"))])
+    # ---- a two-armed branch of a record encoder writes in both arms or in neither: `if flag { res.push(1) } else { res.push(0) }` with one push gone
+    # makes the record one byte short on that arm only (the declared size is computed before the branch)
+    for eid in ("term::internal::HpoTermInternal::as_bytes", "annotations::gene::Gene::as_bytes", "annotations::disease::Disease::as_bytes", "term::internal::HpoTermInternal::parents_as_byte", "term::group::HpoGroup::as_bytes"):
+        eb7 = prog.body(eid)
+        if eb7 is None or eb7.natural_loops() and False:
+            continue
+        outs7 = {bi_ for bi_, t_ in eb7.calls() if t_.callee.method in ("push", "append", "extend_from_slice", "extend") and "u8" in (t_.callee.def_args or "")}
+        n_br = 0
+        for sb_ in sorted(eb7.reach):
+            x_ = eb7.blocks[sb_].term
+            if x_.k != "switch":
+                continue
+            succs_ = list(dict.fromkeys(x_.successors()))
+            if len(succs_) != 2:
+                continue
+            regs_ = [set(eb7.region((sb_, tg_))) for tg_ in succs_]
+            if not regs_[0] or not regs_[1] or regs_[0] & regs_[1]:
+                continue
+            w_ = [len(r_ & outs7) for r_ in regs_]
+            # both arms come back together (neither is an early return / panic arm)
+            if any(eb7.blocks[b_].term.k in ("return", "unreachable") or (eb7.blocks[b_].term.k == "call" and eb7.blocks[b_].term.target is None) for r_ in regs_ for b_ in r_):
+                continue
+            if any(eb7.blocks[b_].term.k == "switch" for r_ in regs_ for b_ in r_):
+                continue  # nested decisions: not the plain two-armed form
+            if w_[0] or w_[1]:
+                n_br += 1
+                ck.ob("LAYOUT", "both-arms-write/%s/%d" % (eb7.short, sb_), bool(w_[0]) == bool(w_[1]), "%s: the branch in line %s writes %s" % (eb7.short, x_.line, "in both arms" if w_[0] and w_[1] else "in ONE arm only (%d / %d output calls): the record is shorter on the other arm than its declared size" % (w_[0], w_[1])), where=eb7.where(x_.line))
     # ---- numbers put together byte by byte take consecutive bytes
     from props.layout import check_byte_assembly
     n_asm = 0
